@@ -435,6 +435,21 @@ func c12scenario(c c12cfg) *explore.Scenario {
 				}
 			}
 		}
+		// "closed once the listener and every accepted connection have been closed": judged at the instant the
+		// last of those Close calls returns (no scheduling point lies between a Close returning and its flag)
+		lastCloseReturned := func(who string) {
+			if !listenerCloseDone || !acceptReturned {
+				return // a pending Accept may still be handing out a queued connection, which keeps the socket open
+			}
+			for _, x := range conns {
+				if !x.closeDone {
+					return
+				}
+			}
+			if !sock.Closed() {
+				fail("socket-open-after-last-close", "%s returned as the last of the Close calls of the listener and its %d accepted connection(s), but the shared socket is still open", who, len(conns))
+			}
+		}
 		body := func() {
 			fakenet.Reset()
 			l, err := udp.Listen("udp", &net.UDPAddr{IP: net.IPv4(127, 0, 0, 1), Port: 4000})
@@ -467,6 +482,7 @@ func c12scenario(c c12cfg) *explore.Scenario {
 					fail("listener-close-error", "listener Close returned %v", err)
 				}
 				listenerCloseDone = true
+				lastCloseReturned("the listener's Close")
 				if err := l.Close(); err != nil {
 					fail("listener-close-not-idempotent", "second listener Close returned %v", err)
 				}
@@ -498,6 +514,7 @@ func c12scenario(c c12cfg) *explore.Scenario {
 						fail("conn-close-error", "conn Close returned %v", err)
 					}
 					x.closeDone = true
+					lastCloseReturned("Close of connection " + x.name)
 					if err := x.conn.Close(); err != nil {
 						fail("conn-close-not-idempotent", "second conn Close returned %v", err)
 					}
@@ -521,6 +538,7 @@ func c12scenario(c c12cfg) *explore.Scenario {
 					x.closeBegun = true
 					_ = cn.Close()
 					x.closeDone = true
+					lastCloseReturned("Close of the late-accepted connection")
 				})
 			}
 			if c.late {
@@ -580,7 +598,7 @@ func c12scenario(c c12cfg) *explore.Scenario {
 }
 
 func init() {
-	register(&Check{ID: "C11",
+	register(&Check{ID: "C11", YieldOnRelease: true,
 		Scenarios: func(tier string) []*explore.Scenario {
 			b := 1
 			if tier == "thorough" {
@@ -621,7 +639,7 @@ func init() {
 		},
 		Rule:        "one remote sending every script of 5 (thorough 7) steps over {datagrams of 1000/1020/1021/1023/1 bytes, Read} so that unread datagrams fill the connection's receive ring to the byte; remotes {a:1, a:2, b:1} (same IP / different port forced) injecting 1-2 tagged datagrams each from their own threads, an accepter thread, one reader thread per accepted connection, optionally closing a connection and sending again; backlog {1,2,128}, accept filter {none, reject-first}, batch read {off,2,3 with partial batches}; every interleaving within the deviation bound over the scheduler-visible fake socket",
 		Assumptions: []string{"OS socket and ipv4.PacketConn batching replaced by zzvsched/fakenet", "completeness is asserted only where nothing may be refused (backlog larger than the number of remotes, no concurrent Close)"}})
-	register(&Check{ID: "C12",
+	register(&Check{ID: "C12", YieldOnRelease: true,
 		Scenarios: func(tier string) []*explore.Scenario {
 			b := 2
 			cfgs := []c12cfg{
